@@ -188,7 +188,9 @@ def gen_value(rnd, tname, hostile=True):
 
 
 FIELD_NAMES = ["a", "b", "s", "n", "name", "value", "ts", "path", "X", "Zz9", "long_field_name_with_many_chars",
-               "f_1", "q", "k", "type", "class_", "self_", "count", "id", "ip", "data", "h"]
+               "f_1", "q", "k", "type", "class_", "self_", "count", "id", "ip", "data", "h",
+               # attributes a GroupedRecord has itself: a member field of that name must still be rendered
+               "name", "records", "descriptors", "flat_fields"]
 
 
 def gen_descriptor(rnd, idx, types=None):
@@ -510,12 +512,37 @@ class Report:
 # ------------------------------------------------------------------------------------------------
 # case generation: sequences of records x options
 
-def gen_sequence(rnd, idx, hostile=True):
-    """list of python records: runs of equal descriptors, value-equal twin descriptors, type changes"""
+SIMPLE_TYPE_NAMES = ("string", "wstring", "varint", "uint16", "uint32", "float", "boolean", "bytes", "datetime", "path", "uri",
+                     "digest", "filesize", "dynamic", "command")
+
+
+def colliding_descriptor(rnd, D):
+    """Another record type with D's name whose IDENTIFIER (name + 32-bit hash of the concatenated field names and
+    types) equals D's although its fields differ: (t1 n1)(t2 n2)... -> (t2 n1+t1+n2)...  None when D has no such twin."""
     from flow.record import RecordDescriptor
+    ft = list(D.get_field_tuples())
+    if len(ft) < 2 or ft[0][0] not in SIMPLE_TYPE_NAMES:
+        return None
+    (t1, n1), (t2, n2) = ft[0], ft[1]
+    try:
+        C = RecordDescriptor(D.name, [(t2, n1 + t1 + n2)] + ft[2:])
+    except Exception:
+        return None
+    return C if C.identifier == D.identifier and C.get_field_tuples() != D.get_field_tuples() else None
+
+
+def gen_sequence(rnd, idx, hostile=True):
+    """write script: runs of equal descriptors, value-equal twin descriptor objects, type changes, record types whose
+    identifiers collide, grouped records (also a group nested in a group)"""
     from flow.record.base import GroupedRecord
     nd = rnd.choice([1, 2, 2, 3])
     descs = [gen_descriptor(rnd, idx * 10 + i) for i in range(nd)]
+    if rnd.random() < 0.3:
+        for D in list(descs):
+            C = colliding_descriptor(rnd, D)
+            if C is not None:
+                descs.append(C)
+                break
     recs = []
     n = rnd.randint(1, 6)
     cur = rnd.choice(descs)
@@ -527,9 +554,14 @@ def gen_sequence(rnd, idx, hostile=True):
             recs.append(Twin(cur))     # equal by value, different object: the header must NOT be repeated
         else:
             cur = rnd.choice(descs)
-        if rnd.random() < 0.08 and len(descs) >= 2:
+        if rnd.random() < 0.12 and len(descs) >= 2:
             a, b = rnd.sample(descs, 2)
-            recs.append(GroupedRecord(rnd.choice(["grp/x", "g"]), [make_record(rnd, a, hostile), make_record(rnd, b, hostile)]))
+            ra, rb = make_record(rnd, a, hostile), make_record(rnd, b, hostile)
+            if rnd.random() < 0.5:
+                ra = GroupedRecord(rnd.choice(["inner", "in/ner"]), [ra])      # a group nested in a group
+            elif rnd.random() < 0.3:
+                rb = GroupedRecord("inner2", [rb, make_record(rnd, a, hostile)])
+            recs.append(GroupedRecord(rnd.choice(["grp/x", "g"]), [ra, rb]))
         else:
             recs.append(make_record(rnd, cur, hostile))
     return recs
@@ -683,11 +715,16 @@ def run_sequence(ctx, rep, rnd, idx, script, workdir, cfgname="gen_cfg", collect
         if isinstance(r, GroupedRecord):
             d = {it[0]: it for it in flat_items(obs)}
             got = r._asdict()
-            bad = [k for k in d if k in vars(r) and (None if got.get(k) is None else str(got.get(k))) != d[k][2]]
+            def _txt(v):
+                try:
+                    return None if v is None else str(v)
+                except Exception as e:  # noqa
+                    return "<%s>" % type(e).__name__
+            bad = [k for k in d if _txt(got.get(k)) != d[k][2]] + [k for k in got if k not in d]
             if bad:
                 rep.fail(dict(cls="grouped-attr-shadow"),
-                         "GroupedRecord._asdict() returns the group's own attribute %r instead of the member field %r = %r" % (
-                             got.get(bad[0]), bad[0], d[bad[0]][2]), dict(kind="grouped-shadow", seq=idx, origin=origin, field=bad[0], records=[repr(x) for x in obss]))
+                         "GroupedRecord._asdict() returns %r for the member field %r = %r (a group's own attribute shadows the field)" % (
+                             got.get(bad[0]), bad[0], (d.get(bad[0]) or [None] * 3)[2]), dict(kind="grouped-shadow", seq=idx, origin=origin, field=bad[0], records=[repr(x) for x in obss]))
                 ctx.count_case(("grouped-shadow", bad[0], repr(obs)))
                 return []
     recs_term = clist(c_rec(o) for o in obss)
@@ -1063,6 +1100,117 @@ def regression_checks(rep, workdir, only=None):
                      "CsvfileWriter on GroupedRecord('grp', [<w/named name='field-value'>]) with fields=name: %s, expected rows "
                      "[['name'], ['field-value']]" % (err or "rows %r" % (rows,)),
                      dict(kind="regression", which="grouped-name", error=err, got=rows))
+    if only in (None, "nested-group-name"):
+        N = RecordDescriptor("w/named4", [("string", "name"), ("varint", "records"), ("string", "descriptors"), ("string", "flat_fields")])
+        O = RecordDescriptor("w/other", [("string", "x")])
+        inner = GroupedRecord("inner", [N(name="field-value", records=7, descriptors="d", flat_fields="f", _generated=TS)])
+        g = GroupedRecord("outer", [inner, O(x="y", _generated=TS)])
+        want = [["name", "records", "descriptors", "flat_fields", "x"], ["field-value", "7", "d", "f", "y"]]
+        for sch in ("csvfile", "line", "text"):
+            o = {"fields": "name,records,descriptors,flat_fields,x"}
+            if sch == "text":
+                o = {"format_spec": "{name},{records},{descriptors},{flat_fields},{x}"}
+            data, err, en = run_writer(sch, p("g4." + sch), [g], o)
+            if sch == "csvfile":
+                ok = data is not None and py_csv_rows(data) == want
+            elif sch == "line":
+                ok = data is not None and [ln.split(" = ", 1)[-1] for ln in data.decode().split("\n")[1:-1]] == want[1]
+            else:
+                ok = data == (",".join(want[1]) + "\n").encode()
+            if not ok:
+                rep.fail(dict(cls="grouped-attr-shadow"),
+                         "%s writer on GroupedRecord('outer', [GroupedRecord('inner', [<w/named4 name='field-value' records=7 "
+                         "descriptors='d' flat_fields='f'>]), <w/other x='y'>]): %s, expected the member fields' values %r" % (
+                             sch, err or "wrote %r" % (data,), want[1]),
+                         dict(kind="regression", which="nested-group-name", writer=sch, error=err,
+                              output=None if data is None else data.hex()))
+                break
+
+
+
+# ------------------------------------------------------------------------------------------------
+# fresh-interpreter smoke scenario: the same program runs in a child interpreter that has imported NOTHING but
+# flow.record (so a field type module that is only imported as somebody's side effect is missing there) and in this
+# process; the bytes of every text writer must be identical
+
+SMOKE_SRC = r"""
+import os, sys
+def main(outdir):
+    from flow.record import RecordDescriptor, RecordWriter
+    fields = [
+        ("string", "f_string"), ("wstring", "f_wstring"), ("uri", "f_uri"), ("path", "f_path"), ("varint", "f_varint"),
+        ("uint16", "f_uint16"), ("uint32", "f_uint32"), ("float", "f_float"), ("boolean", "f_boolean"), ("bytes", "f_bytes"),
+        ("datetime", "f_datetime"), ("filesize", "f_filesize"), ("unix_file_mode", "f_mode"), ("digest", "f_digest"),
+        ("net.ipaddress", "f_ipaddress"), ("net.ipnetwork", "f_ipnetwork"), ("net.IPAddress", "f_IPAddress"),
+        ("net.IPNetwork", "f_IPNetwork"), ("net.ipv4.Address", "f_v4addr"), ("net.ipv4.Subnet", "f_v4subnet"),
+        ("net.tcp.Port", "f_tcpport"), ("net.udp.Port", "f_udpport"), ("command", "f_command"), ("dynamic", "f_dynamic"),
+        ("dictlist", "f_dictlist"), ("stringlist", "f_stringlist"), ("string[]", "l_string"), ("varint[]", "l_varint"),
+        ("bytes[]", "l_bytes"), ("path[]", "l_path"), ("net.ipaddress[]", "l_ip"), ("datetime[]", "l_datetime"),
+        ("float[]", "l_float"), ("uri[]", "l_uri"),
+    ]
+    ts = "2020-01-02T03:04:05.000006+00:00"
+    D = RecordDescriptor("smoke/all", fields)
+    N = RecordDescriptor("smoke/net", [("net.ipaddress", "ip"), ("net.ipnetwork", "net"), ("net.ipaddress[]", "ips")])
+    full = dict(
+        f_string='a,"b" \u00e9', f_wstring="w", f_uri="http://x/y?z", f_path="/tmp/x y", f_varint=-(2 ** 70), f_uint16=65535,
+        f_uint32=4294967295, f_float=1.5, f_boolean=True, f_bytes=b"\xff\x00a", f_datetime=ts, f_filesize=2 * 10 ** 17,
+        f_mode=0o100644, f_digest=("d41d8cd98f00b204e9800998ecf8427e", None, None), f_ipaddress="1.2.3.4",
+        f_ipnetwork="10.0.0.0/8", f_IPAddress="::1", f_IPNetwork="2001:db8::/32", f_v4addr="4.3.2.1", f_v4subnet="192.168.0.0/24",
+        f_tcpport=80, f_udpport=53, f_command="ls -l", f_dynamic="dyn", f_dictlist=[{"k": 1}], f_stringlist=["x", "y"],
+        l_string=["a", "b,c"], l_varint=[1, -2], l_bytes=[b"a", b"\xfe"], l_path=["/a", "b c"], l_ip=["::1", "10.0.0.1"],
+        l_datetime=[ts], l_float=[0.5], l_uri=["u://v"])
+    recs = [D(_generated=ts, _source="smoke", **full), D(_generated=ts),
+            N(ip="8.8.8.8", net="8.8.8.0/24", ips=["1.1.1.1"], _generated=ts), N(_generated=ts),
+            D(_generated=ts, f_string="second", f_ipaddress="fe80::1", l_ip=[])]
+    runs = [("csv", "csvfile://%s", {}), ("csv_lf", "csvfile://%s", {"lineterminator": "\\n", "exclude": "_generated"}),
+            ("line", "line://%s", {}), ("line_v", "line://%s", {"verbose": True}), ("text", "text://%s", {}),
+            ("text_t", "text://%s", {"format_spec": "{f_string}|{f_ipaddress}|{ip}|{net}|{l_ip}|{f_bytes}|{f_uint16}|{f_filesize!r}"})]
+    for name, uri, kw in runs:
+        path = os.path.join(outdir, name + ".out")
+        w = RecordWriter(uri % path, **kw)
+        for r in recs:
+            w.write(r)
+        w.close()
+    return [n for n, _, _ in runs]
+"""
+
+
+def smoke_scenario(ctx, rep, workdir):
+    import subprocess
+    d_in, d_out = os.path.join(workdir, "smoke_in"), os.path.join(workdir, "smoke_child")
+    os.makedirs(d_in, exist_ok=True)
+    os.makedirs(d_out, exist_ok=True)
+    ns = {}
+    exec(compile(SMOKE_SRC, "<c20-smoke>", "exec"), ns)
+    try:
+        with warnings.catch_warnings():
+            warnings.simplefilter("ignore")
+            names = ns["main"](d_in)
+    except Exception as e:  # noqa
+        rep.fail(dict(cls="smoke", where="in-process"), "smoke scenario (records of every field type through every text writer) "
+                 "raised in this process: %s: %s" % (type(e).__name__, e), dict(kind="smoke", where="in-process", error=repr(e)))
+        return
+    env = dict(os.environ, PYTHONPATH=str(core.REPO), PYTHONDONTWRITEBYTECODE="1", PYTHONWARNINGS="ignore")
+    env.pop("FLOW_RECORD_TZ", None)
+    pr = subprocess.run([core.PY, "-c", SMOKE_SRC + "\nmain(sys.argv[1])\n", d_out], env=env, cwd=workdir,
+                        stdout=subprocess.PIPE, stderr=subprocess.STDOUT, text=True, timeout=120)
+    ctx.count_case(("smoke", "fresh-interpreter"))
+    if pr.returncode != 0:
+        rep.fail(dict(cls="smoke", where="child"),
+                 "a fresh interpreter that imports only flow.record fails to write records of every field type through the "
+                 "text writers (the same program succeeds in this process): %s" % pr.stdout.strip().splitlines()[-1:],
+                 dict(kind="smoke", where="child", output=pr.stdout[-3000:]))
+        return
+    for n in names:
+        a = open(os.path.join(d_in, n + ".out"), "rb").read()
+        b = open(os.path.join(d_out, n + ".out"), "rb").read()
+        if a != b:
+            k = next((i for i in range(min(len(a), len(b))) if a[i] != b[i]), min(len(a), len(b)))
+            rep.fail(dict(cls="smoke", where="differs"),
+                     "writer scenario %s: a fresh interpreter that imports only flow.record writes other bytes than this process "
+                     "(first difference at offset %d: %r vs %r)" % (n, k, b[max(0, k - 20):k + 30], a[max(0, k - 20):k + 30]),
+                     dict(kind="smoke", where=n, child=b.hex()[:4000], inprocess=a.hex()[:4000]))
+            return
 
 
 # ------------------------------------------------------------------------------------------------
@@ -1113,7 +1261,18 @@ def witness_sequences():
         dict(csv=[{"fields": ["u", "l"]}, {}], line=[{"fields": ["u", "l", "p"]}, {}],
              text=[{"format_spec": "{u}"}, {"format_spec": "{{{p}}} {l} {s:^10}"}]),
     ]
-    return [(-(k + 1), [r1, r2, r3], plan) for k, plan in enumerate(plans)]
+    out = [(-(k + 1), [r1, r2, r3], plan) for k, plan in enumerate(plans)]
+    # two record types with one name whose identifiers collide ('test/run' + 'astringbstring'), one writer session:
+    # the second type needs its own header row / its own field types
+    A = RecordDescriptor("test/run", [("string", "a"), ("string", "b")])
+    B = RecordDescriptor("test/run", [("string", "astringb")])
+    assert A.identifier == B.identifier
+    col = [A(a="1", b="2", _generated=TS), B(astringb="3", _generated=TS), A(a="4", b="5", _generated=TS), Twin(A),
+           A(a="6", b=None, _generated=TS), B(astringb="7", _generated=TS)]
+    out.append((-(len(plans) + 1), col,
+                dict(csv=[{}, {"exclude": "_source,_classification,_generated,_version"}], line=[{"verbose": True}, {}],
+                     text=[{}, {"format_spec": "{a}|{b}|{astringb}"}])))
+    return out
 
 
 def run_witness_sequences(ctx, rep, workdir, cfgname="gen_cfg", only=None):
@@ -1191,7 +1350,10 @@ RULE = (
     "against the environment models, normalize_fieldname names and CSV files with unambiguous content read back through "
     "CsvfileReader over 4 delimiters; plus a deterministic totality sweep: records with surrogate-escaped bytes "
     "(U+DC80..U+DCFF) in string/uri/path/string[] values through every writer mode (csv CRLF/LF, line plain/verbose, text "
-    "repr and templates with plain/converted/spec'd placeholders), also run in the search stage.  distinct = distinct canonical (writer, options, observed records) tuple; a "
+    "repr and templates with plain/converted/spec'd placeholders), also run in the search stage; record types whose "
+    "identifiers collide in one writer session; groups nested in groups with member fields called name/records/"
+    "descriptors/flat_fields; one fresh-interpreter smoke scenario (a child process importing only flow.record writes "
+    "records of every field type through every text writer; bytes compared with this process).  distinct = distinct canonical (writer, options, observed records) tuple; a "
     "read-back case whose delimiter csv.Sniffer does not identify is counted trivial")
 
 
@@ -1241,6 +1403,7 @@ def search(ctx, reason):
         with warnings.catch_warnings():
             warnings.simplefilter("ignore")
             regression_checks(rep, _workdir(ctx))
+        smoke_scenario(ctx, rep, _workdir(ctx))
         if rep.reported:
             return True
         # the model alone (no generated facts needed: the cases use pinned_cfg); a generator name that matches
@@ -1308,6 +1471,7 @@ def run(ctx):
     with warnings.catch_warnings():
         warnings.simplefilter("ignore")
         regression_checks(rep, _workdir(ctx))
+    smoke_scenario(ctx, rep, _workdir(ctx))
     terms, metas, failing, err = correspondence(ctx, rep)
     if err:
         ctx.violation("correspondence shards did not evaluate: " + err[:300], dict(kind="coq-eval", log=err), no_input=True)
@@ -1379,6 +1543,10 @@ def replay(obj):
                 out = str(work / "out")
                 os.makedirs(out, exist_ok=True)
                 run_sequence(rctx, rep, rnd, idx, script, out)
+            elif kind == "smoke":
+                out = str(work / "out")
+                os.makedirs(out, exist_ok=True)
+                smoke_scenario(rctx, rep, out)
             elif kind == "regression":
                 out = str(work / "out")
                 os.makedirs(out, exist_ok=True)
